@@ -98,7 +98,7 @@ theorem step_frame (P : List Task) (st st' : State) (s : Stmt) (h : step st s = 
     obtain ⟨h1, h2⟩ := changeSeg_frame (P ++ st.tasks) st st' a h
     simp only [step] at h ⊢; rw [h1, h2]
   | align n =>
-    simp only [step] at h ⊢
+    rw [step_align] at h ⊢
     cases hact : st.active with
     | none => rw [hact] at h; cases h
     | some s =>
@@ -408,7 +408,7 @@ theorem step_env_raw (st st' : State) (s : Stmt) (h : step st s = .ok st') (k : 
     · cases h
   | raw bs => simp only [step] at h; rw [happ _ _ h]
   | align n =>
-    simp only [step] at h
+    rw [step_align] at h
     repeat' split at h
     all_goals first | (cases h; done) | (cases h; rfl) | (rw [happ _ _ h])
   | emit len d f =>
